@@ -28,6 +28,16 @@ MUTATORS = {
     "__setitem__",
     "__delitem__",
     "put_nowait",
+    # networkx graph mutators (the nx graph is shared by every bind/select/with_entrypoint copy of a Graph)
+    "add_edge",
+    "add_edges_from",
+    "add_node",
+    "add_nodes_from",
+    "remove_edge",
+    "remove_edges_from",
+    "remove_node",
+    "remove_nodes_from",
+    "clear_edges",
 }
 ELEMENT_GETTERS = {"get", "values", "items", "keys", "__getitem__"}
 NX_READS = {"subgraph", "predecessors", "successors", "nodes", "edges", "has_node", "has_edge", "in_edges", "out_edges", "neighbors", "in_degree", "out_degree", "number_of_nodes", "reverse"}
